@@ -23,6 +23,18 @@ def run_jobs(rep, binary, jobs, tier, job_deadline_s=None, total_deadline_s=None
     t_end = time.time() + total_deadline_s if total_deadline_s else None
     lock = threading.Lock()
     rep.extra.setdefault('jobs', [])
+    # One CPU per explorer: all threads of an execution share a core, so the futex hand-offs of the
+    # cooperative scheduler are plain context switches instead of cross-core wake-ups (measured 2.6x faster,
+    # and far less sensitive to other load on the machine).
+    import queue
+    try:
+        cpus = sorted(os.sched_getaffinity(0))
+    except AttributeError:
+        cpus = list(range(core.NCPU))
+    free_cpus = queue.Queue()
+    for c in cpus[:core.NCPU]:
+        free_cpus.put(c)
+    nworkers = min(core.NCPU, len(cpus)) or 1
 
     def one(job):
         scen, bp, bf = job[:3]
@@ -39,7 +51,11 @@ def run_jobs(rep, binary, jobs, tier, job_deadline_s=None, total_deadline_s=None
         if dl:
             cmd += ['--deadline', '%.0f' % dl]
         t0 = time.time()
-        p = subprocess.run(cmd, capture_output=True)
+        cpu = free_cpus.get()
+        try:
+            p = subprocess.run(cmd, capture_output=True, preexec_fn=(lambda c=cpu: os.sched_setaffinity(0, {c})))
+        finally:
+            free_cpus.put(cpu)
         text = p.stdout.decode('utf-8', 'replace')
         with lock:
             done = rep.ingest(text, '')
@@ -54,7 +70,7 @@ def run_jobs(rep, binary, jobs, tier, job_deadline_s=None, total_deadline_s=None
             rep.extra['jobs'].append({'scenario': scen, 'bound_preemptions_and_faults': bp, 'bound_free_switch_deviations': bf,
                                       'executions': st.get('run', 0), 'distinct_outcomes': st.get('outcomes', 0),
                                       'wall_s': round(time.time() - t0, 1)})
-    with ThreadPoolExecutor(max_workers=core.NCPU) as ex:
+    with ThreadPoolExecutor(max_workers=nworkers) as ex:
         list(ex.map(one, jobs))
 
 
